@@ -193,6 +193,12 @@ def no_state(ctx: Context) -> None:
             if nm in ("lru_cache", "cache"):
                 ctx.fail("R5.no-state", f"{f.name}:decorator:{nm}", f"@{nm} on {f.name}: results are cached across calls", f, d)
     ctx.floor("R5", "functions of utils/time_series.py", n, 6)
+    # process-wide numpy error mode: a helper that switches it and does not restore it on an exceptional exit makes later calls (the moment summary on a
+    # constant series: 0/0 -> nan -> nan_to_num) raise instead
+    from ..util import unrestored_fp_state
+    _n, bad = unrestored_fp_state(prog)
+    for f_, c_, why in bad:
+        ctx.fail("R5.no-state", f"{f_.name}:fp-error-mode", why, f_, c_)
     ctx.ok("R5.no-state", "time_series:scanned", f"{n} helpers write no module-level state")
 
 
